@@ -1,6 +1,7 @@
 import OpusModel.RangeCoder
 import OpusModel.RangeCoderCodes
 import OpusModel.SilkSymsEnc
+import OpusModel.OpusFrameEnc
 import Driver.Util
 /-
   Suite `rangecoder` (property C08).  Line protocol (harness/c08_rangecoder.c emits the same):
@@ -45,6 +46,10 @@ import Driver.Util
                                  N<i>=<v> / M<i>=<v>           mid-only flag coded with LBRR / regular frame i
       answer:  <ok|err> D <st after ec_enc_done> B <hex: size bytes> R ok   (OpusModel.SilkSymsEnc.packetOps on a zeroed buffer;
                `R` is the harness's model-free round trip through the real silk_Decode, which the theorem says is `ok`)
+
+    rangecoder oframe <max_data_bytes> <fill> <bandwidth> <nCh> <ms10> <flags> <records>
+        (harness/c08_silkpacket.c mode `oframe`: the real opus_encode forced to SILK-only; records as in `spacket`)
+      answer:  P <hex payload> F <rangeFinal>   (OpusModel.OpusFrameEnc.silkOnlyFrame; caller buffer byte j = (fill+37j)%256)
 
     rangecoder tf <l> <rlo> <n> <low> <nbits>
         ec_tell / ec_tell_frac for rng = (r << (l-16)) + (low ? 2^(l-16)-1 : 0), r = rlo..rlo+n-1,
@@ -245,7 +250,19 @@ def runSpacket (size : Nat) (cfg : SilkSyms.Cfg) (pk : SilkSymsEnc.PacketIn) : S
   let tag := if e.error = 0 then "ok" else "err"
   s!"{tag} D {stStr e} B {toHex e.buf} R ok"
 
+def runOframe (maxData fill bw nCh ms10 : Nat) (pk : SilkSymsEnc.PacketIn) : String :=
+  let buf := (List.range (maxData - 1)).map (fun j => (fill + 37 * j) % 256)
+  let f := OpusFrameEnc.silkOnlyFrame buf maxData (OpusFrameEnc.silkCfg bw nCh ms10) pk
+  s!"P {toHex f.payload} F {f.rangeFinal}"
+
 def handle : List String → String
+  | ["oframe", maxData, fill, bw, nCh, ms10, flags, recs] =>
+    match parseNat maxData, parseNat fill, parseNat bw, parseNat nCh, parseNat ms10, parseNat flags with
+    | some maxData, some fill, some bw, some nCh, some ms10, some flags =>
+      match parsePacket nCh (OpusFrameEnc.silkCfg bw nCh ms10).nfpp flags (if recs = "-" then [] else recs.splitOn ";") with
+      | some pk => runOframe maxData fill bw nCh ms10 pk
+      | none => "bad-op"
+    | _, _, _, _, _, _ => "bad-op"
   | ["spacket", size, fs, nCh, nfpp, nb, flags, recs] =>
     match parseNat size, parseNat fs, parseNat nCh, parseNat nfpp, parseNat nb, parseNat flags with
     | some size, some fs, some nCh, some nfpp, some nb, some flags =>
